@@ -360,7 +360,7 @@ def replay_c14(cex, d):
     if ob == 'ITERINDICES':
         n = int(fx['n'])
         if n > 10 ** 6:
-            return {'reproduced': False, 'detail': 'too large'}
+            return {'reproduced': False, 'skip': True, 'detail': 'too large'}
         c = int(fx['c'])
         s = int(fx['s']) if fx['usestep'] else None
         a = int(fx['a']) if fx['usea'] else None
@@ -393,6 +393,34 @@ def replay_c14(cex, d):
             if frames != exp:
                 return {'reproduced': True, 'detail': f'frames {frames[:5]} != expected {exp[:5]}'}
         return {'reproduced': False, 'detail': 'frames as specified'}
+    if ob == 'ITERCHUNKS':
+        n, c, a, b = int(fx['n']), int(fx['c']), int(fx['a']), int(fx['b'])
+        if n > 10 ** 5:
+            return {'reproduced': False, 'skip': True, 'detail': 'too large'}
+        atom = tuple(fx.get('atom', ()))
+        s = None if fx['tiling'] else int(fx['s'])
+        with rp.scratch() as tmp:
+            ref = rp.values(np_, n, atom, 'int32', 'big')
+            arr = darr.asarray(tmp + '/a', ref)
+            step = c if s is None else s
+            exp = []
+            k = 0
+            while a + k * step + c <= b:
+                exp.append((a + k * step, a + k * step + c))
+                k += 1
+            lastend = exp[-1][1] if exp else a
+            if fx['rem'] and b > lastend and a + k * step < b:
+                exp.append((a + k * step, b))
+            try:
+                chunks = list(arr.iterchunks(c, stepsize=s, startindex=a, endindex=b, include_remainder=bool(fx['rem'])))
+            except Exception as e:
+                return {'reproduced': True, 'detail': f'iterchunks raised {e!r}'}
+            if len(chunks) != len(exp) or any(ch.tobytes() != ref[x:y].tobytes() for ch, (x, y) in zip(chunks, exp)):
+                return {'reproduced': True, 'detail': f'iterchunks(n={n}, chunklen={c}, stepsize={s}, start={a}, end={b}, rem={fx["rem"]}) '
+                                                      f'yields {len(chunks)} chunks of lengths {[len(x) for x in chunks][:6]}, expected frames {exp[:6]}'}
+            if s is None and fx['rem'] and chunks and np_.concatenate(chunks).tobytes() != ref[a:b].tobytes():
+                return {'reproduced': True, 'detail': 'chunks do not concatenate to a[start:end]'}
+        return {'reproduced': False, 'detail': 'iterchunks as specified'}
     if ob == 'E2':
         return {'reproduced': True, 'detail': str(cex)}
     return {'reproduced': False, 'detail': 'no replay for ' + ob}
@@ -412,7 +440,7 @@ def obligations(tier):
            bounds=f'all integers; valid parameter sets restricted to at most {KM} full frames (trip count), invalid ones unrestricted'),
         Ob('ITERCHUNKS', 'h_iterchunks',
            splits=[dict(atom=at, KMAX=3 if not thorough else 5, tiling=tl) for at in [(), (2,)] for tl in (True, False)],
-           timeout=T * 2, replay=None, sym='n, c, a, b, s, rem, probe',
+           timeout=T * 2, replay='replay_c14', sym='n, c, a, b, s, rem, probe',
            bounds='real iterchunks on the model array; at most 3 (5) full frames; detached copies; tiling'),
         Ob('E2', 'h_lemmas', splits=[{}], timeout=300, replay='replay_c14', kind='e2',
            sym='t, c, s (fit_frames), fs, fe, step, c, a, j (loop body)',
